@@ -146,6 +146,11 @@ def run(ck):
         # ---- end to end through interrogate -----------------------------------------------------------------
         e2e = rng.sample([l for l in lits if re.match(r"^\d+\.\d+(e[+-]?\d+)?$", l) and len(l) < 30 and float(l) not in (float("inf"), 0.0)], 30 if quick else 300)
         e2e += ["0.3", "1.7", "1.5e105", "2.5e-203", "7e300", "100000000000000000000.0", "3.14159"]
+        e2e += ["4.9e-324", "1e-310", "2.2250738585072009e-308", "2.2250738585072014e-308", "1.7976931348623157e308", "8.5e-320"]      # subnormals and the ends of the normal range
+        # values that share their significand and differ only in the binary exponent (x, 2x, 4x, x/2): they must stay distinct
+        for base in ["0.75", "0.1", "1.25", "3.3", "%d.%d" % (rng.randrange(1, 99), rng.randrange(1, 99))]:
+            v = float(base)
+            e2e += [repr(v * f) for f in (1.0, 2.0, 4.0, 0.5, 8.0)]
         hdr = "class F {\n__published:\n" + "".join("  void f%d(double x = %s);\n" % (i, l) for i, l in enumerate(e2e)) + "};\n"
         hp = wd / "lits.h"
         hp.write_text(hdr)
